@@ -17,8 +17,10 @@ export CARGO_TARGET_DIR=$wt/target
 git apply $dir/patch.diff || { echo "{\"id\":\"$id\",\"applies\":false}" > $dir/confirm.json; exit 1; }
 base=$(cargo test --workspace --no-fail-fast --offline 2>&1 | grep -E "^test result" | awk '{p+=$4; f+=$6} END {print p" "f}')
 mkdir -p $(dirname $wt/$loc); cp $dir/demo.rs $wt/$loc
+cargo build -p $crate --offline >/dev/null 2>&1
 with=$(cargo test -p $crate --test $tname --offline 2>&1 | grep -E "^test result" | tail -1)
 git checkout -q -- .
+cargo build -p $crate --offline >/dev/null 2>&1
 without=$(cargo test -p $crate --test $tname --offline 2>&1 | grep -E "^test result" | tail -1)
 rm -f $wt/$loc
 python3 - "$id" "$base" "$with" "$without" "$loc" > $dir/confirm.json <<'PY'
